@@ -897,5 +897,251 @@ theorem removeDiff_has : ∀ (q : Path) (t s : Trie), wf t = true → wf s = tru
               rw [← hrec]
               exact (has_of_not_truthy (removeDiff_wf _ _ _ (Nat.le_refl _) hvw hsw) htr' q).symm
 
+/-- the value `_merge` stores under key `k` when the source has `sv` there. -/
+def mergeEntry (tk : Kids) (k : Key) (sv : Trie) : Trie :=
+  if k = dollar then sv
+  else match Assoc.lookup tk k with
+    | some tv => merge tv sv
+    | none => sv
+
+theorem mergeEntry_congr (tk tk' : Kids) (k : Key) (sv : Trie)
+    (h : Assoc.lookup tk' k = Assoc.lookup tk k) : mergeEntry tk' k sv = mergeEntry tk k sv := by
+  unfold mergeEntry
+  rw [h]
+
+theorem mergeKids_cons (tk : Kids) (k : Key) (v : Trie) (rest : Kids) :
+    mergeKids tk ((k, v) :: rest) = mergeKids (Assoc.set tk k (mergeEntry tk k v)) rest := by
+  simp only [mergeKids, mergeEntry]
+  by_cases hd : k = dollar
+  · simp [hd]
+  · simp only [hd, if_false]
+    cases Assoc.lookup tk k <;> rfl
+
+theorem lookup_mergeKids : ∀ (sk : Kids), Assoc.nodup sk = true → ∀ (tk : Kids) (k : Key),
+    Assoc.lookup (mergeKids tk sk) k = (match Assoc.lookup sk k with
+      | none => Assoc.lookup tk k
+      | some sv => some (mergeEntry tk k sv)) := by
+  intro sk
+  induction sk with
+  | nil => intro _ tk k; simp [mergeKids, Assoc.lookup]
+  | cons kv rest ih =>
+    obtain ⟨k0, v0⟩ := kv
+    intro hn tk k
+    simp only [Assoc.nodup, Bool.and_eq_true, Bool.not_eq_true'] at hn
+    rw [mergeKids_cons, ih hn.2]
+    simp only [Assoc.lookup]
+    by_cases h0 : k0 = k
+    · subst h0
+      have : Assoc.lookup rest k0 = none := by
+        have := hn.1
+        unfold Assoc.hasKey at this
+        cases hl : Assoc.lookup rest k0 with
+        | none => rfl
+        | some _ => rw [hl] at this; simp at this
+      simp [this, Assoc.lookup_set]
+    · simp only [h0, if_false]
+      have hlk : Assoc.lookup (Assoc.set tk k0 (mergeEntry tk k0 v0)) k = Assoc.lookup tk k := by
+        rw [Assoc.lookup_set]; simp [h0]
+      cases Assoc.lookup rest k with
+      | none => exact hlk
+      | some sv => simp only [mergeEntry_congr tk _ k sv hlk]
+
+theorem nodup_mergeKids : ∀ (sk tk : Kids), Assoc.nodup tk = true → Assoc.nodup (mergeKids tk sk) = true := by
+  intro sk
+  induction sk with
+  | nil => intro tk h; exact h
+  | cons kv rest ih =>
+    obtain ⟨k0, v0⟩ := kv
+    intro tk h
+    rw [mergeKids_cons]
+    exact ih _ (Assoc.nodup_set tk h _ _)
+
+theorem mergeKids_nonempty : ∀ (sk tk : Kids), (tk.isEmpty = false ∨ sk.isEmpty = false) →
+    (mergeKids tk sk).isEmpty = false := by
+  intro sk
+  induction sk with
+  | nil => intro tk h; rcases h with h | h
+           · exact h
+           · simp at h
+  | cons kv rest ih =>
+    obtain ⟨k0, v0⟩ := kv
+    intro tk _
+    rw [mergeKids_cons]
+    exact ih _ (Or.inl (Assoc.set_ne_nil tk _ _))
+
+theorem merge_wf : ∀ (n : Nat) (t s : Trie), size s ≤ n → wf t = true → wf s = true →
+    wf (merge t s) = true := by
+  intro n
+  induction n with
+  | zero => intro t s hs; cases s <;> simp [size] at hs
+  | succ n ih =>
+    intro t s hsz ht hs
+    cases t with
+    | mark => simp [wf] at ht
+    | node tk =>
+      cases s with
+      | mark => simp [wf] at hs
+      | node sk =>
+        have hnt := wfKids_nodup tk ht
+        have hns := wfKids_nodup sk hs
+        simp only [merge, wf]
+        apply wfKids_of_lookup _ (nodup_mergeKids sk tk hnt)
+        intro k v' hl
+        rw [lookup_mergeKids sk hns] at hl
+        cases hls : Assoc.lookup sk k with
+        | none =>
+          rw [hls] at hl
+          exact wfKids_lookup tk ht k v' hl
+        | some sv =>
+          rw [hls] at hl
+          simp only [Option.some.injEq] at hl
+          subst hl
+          have hsv := wfKids_lookup sk hs k sv hls
+          by_cases hd : k = dollar
+          · simp only [hd, if_true, mergeEntry] at hsv ⊢
+            exact hsv
+          · simp only [hd, if_false, mergeEntry] at hsv ⊢
+            cases hlt : Assoc.lookup tk k with
+            | none => exact hsv
+            | some tv =>
+              have htv := wfKids_lookup tk ht k tv hlt
+              simp only [hd, if_false] at htv
+              have hlt' := size_lookup_lt sk k sv hls
+              refine ⟨ih tv sv (by omega) htv.1 hsv.1, ?_⟩
+              cases tv with
+              | mark => simp [wf] at htv
+              | node tvk =>
+                cases sv with
+                | mark => simp [wf] at hsv
+                | node svk =>
+                  simp only [merge, truthy, Bool.not_eq_true']
+                  apply mergeKids_nonempty
+                  right
+                  simpa [truthy] using hsv.2
+
+/-- `union` / `update`: the represented set is the union. -/
+theorem merge_has : ∀ (q : Path) (t s : Trie), wf t = true → wf s = true → dollarFree q = true →
+    has (merge t s) q = (has t q || has s q) := by
+  intro q
+  induction q with
+  | nil =>
+    intro t s ht hs _
+    cases t with
+    | mark => simp [wf] at ht
+    | node tk =>
+      cases s with
+      | mark => simp [wf] at hs
+      | node sk =>
+        have hns := wfKids_nodup sk hs
+        simp only [merge, has, Assoc.hasKey, lookup_mergeKids sk hns]
+        cases Assoc.lookup sk dollar <;> simp
+  | cons a q ih =>
+    intro t s ht hs hq
+    rw [dollarFree_cons] at hq
+    cases t with
+    | mark => simp [wf] at ht
+    | node tk =>
+      cases s with
+      | mark => simp [wf] at hs
+      | node sk =>
+        have hns := wfKids_nodup sk hs
+        simp only [merge, has, lookup_mergeKids sk hns]
+        cases hls : Assoc.lookup sk a with
+        | none => simp
+        | some sv =>
+          obtain ⟨svk, rfl, hsw, _⟩ := wf_node_lookup hs hq.1 hls
+          simp only [mergeEntry, hq.1, if_false]
+          cases hlt : Assoc.lookup tk a with
+          | none => simp
+          | some tv =>
+            obtain ⟨tvk, rfl, htw, _⟩ := wf_node_lookup ht hq.1 hlt
+            exact ih _ _ htw hsw hq.2
+
+/-! ### iteration -/
+
+/-- what one dict entry contributes to `has`. -/
+def entryHas (k : Key) (v : Trie) : Path → Bool
+  | [] => decide (k = dollar)
+  | a :: r => decide (k = a) && has v r
+
+theorem has_cons_kids (k : Key) (v : Trie) (rest : Kids) (hn : Assoc.hasKey rest k = false) (r : Path) :
+    has (.node ((k, v) :: rest)) r = (entryHas k v r || has (.node rest) r) := by
+  have hnone : Assoc.lookup rest k = none := by
+    unfold Assoc.hasKey at hn
+    cases hl : Assoc.lookup rest k with
+    | none => rfl
+    | some _ => rw [hl] at hn; simp at hn
+  cases r with
+  | nil =>
+    simp only [has, Assoc.hasKey, Assoc.lookup, entryHas]
+    by_cases hd : k = dollar <;> simp [hd]
+  | cons a r =>
+    simp only [has, Assoc.lookup, entryHas]
+    by_cases hka : k = a
+    · subst hka; simp [hnone]
+    · simp [hka]
+
+mutual
+  /-- `__iter__` yields exactly the paths of the represented set. -/
+  theorem mem_paths : ∀ (t : Trie) (pre q : Path), wf t = true →
+      (q ∈ paths t pre ↔ ∃ r, q = pre ++ r ∧ dollarFree r = true ∧ has t r = true)
+    | .mark, _, _, h => by simp [wf] at h
+    | .node kids, pre, q, h => by
+      simp only [paths]
+      exact mem_pathsKids kids pre q h
+  theorem mem_pathsKids : ∀ (kids : Kids) (pre q : Path), wfKids kids = true →
+      (q ∈ pathsKids kids pre ↔ ∃ r, q = pre ++ r ∧ dollarFree r = true ∧ has (.node kids) r = true)
+    | [], pre, q, _ => by
+      simp only [pathsKids, List.not_mem_nil, false_iff]
+      rintro ⟨r, _, _, hr⟩
+      cases r <;> simp [has, Assoc.hasKey, Assoc.lookup] at hr
+    | (k, v) :: rest, pre, q, h => by
+      have h' := h
+      simp only [wfKids, Bool.and_eq_true, Bool.not_eq_true'] at h'
+      obtain ⟨⟨hnk, hkv⟩, hrest⟩ := h'
+      simp only [pathsKids, List.mem_append]
+      rw [mem_pathsKids rest pre q hrest]
+      have hsplit : ∀ r, has (.node ((k, v) :: rest)) r = (entryHas k v r || has (.node rest) r) :=
+        has_cons_kids k v rest hnk
+      have hentry : (q ∈ (if k = dollar then [pre] else paths v (pre ++ [k]))) ↔
+          ∃ r, q = pre ++ r ∧ dollarFree r = true ∧ entryHas k v r = true := by
+        by_cases hd : k = dollar
+        · simp only [hd, if_true, List.mem_singleton]
+          constructor
+          · intro e; exact ⟨[], by simp [e], rfl, by simp [entryHas]⟩
+          · rintro ⟨r, hq, hdf, he⟩
+            cases r with
+            | nil => simpa using hq
+            | cons a r =>
+              rw [dollarFree_cons] at hdf
+              simp only [entryHas, Bool.and_eq_true, decide_eq_true_eq] at he
+              exact absurd he.1.symm hdf.1
+        · simp only [hd, if_false] at hkv ⊢
+          simp only [Bool.and_eq_true] at hkv
+          rw [mem_paths v (pre ++ [k]) q hkv.1]
+          constructor
+          · rintro ⟨r, hq, hdf, hh⟩
+            refine ⟨k :: r, by simp [hq], ?_, by simp [entryHas, hh]⟩
+            rw [dollarFree_cons]; exact ⟨hd, hdf⟩
+          · rintro ⟨r, hq, hdf, he⟩
+            cases r with
+            | nil => simp [entryHas, hd] at he
+            | cons a r =>
+              rw [dollarFree_cons] at hdf
+              simp only [entryHas, Bool.and_eq_true, decide_eq_true_eq] at he
+              obtain ⟨rfl, hh⟩ := he
+              exact ⟨r, by simp [hq], hdf.2, hh⟩
+      rw [hentry]
+      constructor
+      · rintro (⟨r, a, b, c⟩ | ⟨r, a, b, c⟩)
+        · exact ⟨r, a, b, by rw [hsplit, c]; rfl⟩
+        · exact ⟨r, a, b, by rw [hsplit, c]; simp⟩
+      · rintro ⟨r, a, b, c⟩
+        rw [hsplit, Bool.or_eq_true] at c
+        rcases c with c | c
+        · exact Or.inl ⟨r, a, b, c⟩
+        · exact Or.inr ⟨r, a, b, c⟩
+end
+
 end Trie
 end Pg.C10
